@@ -262,7 +262,16 @@ static TickitTermDriverVTable rbh_stay_vtable;
 /* fl / flm tl tc gl gc P: flush onto a tl x tc mock terminal that shows a sentinel pattern, has
  * its cursor at (gl, gc) and pen P; prints F{operation log}{final grid}.  maybe_moves = 0: the
  * terminal's erasech(MAYBE) does not move the cursor */
+/* flp tl tc gl gc P pl pc PP text: as fl, but before the flush `text` is printed at (pl, pc) in pen PP, so that the
+ * terminal already shows e.g. double-width characters (prior_text == NULL: plain fl / flm) */
+static void rbh_flush_mock_prior(TickitRenderBuffer *rb, int tl, int tc, int gl, int gc, const char *penspec, int maybe_moves,
+                                 int pl, int pc, const char *prior_pen, const char *prior_text);
 static void rbh_flush_mock(TickitRenderBuffer *rb, int tl, int tc, int gl, int gc, const char *penspec, int maybe_moves)
+{
+  rbh_flush_mock_prior(rb, tl, tc, gl, gc, penspec, maybe_moves, 0, 0, NULL, NULL);
+}
+static void rbh_flush_mock_prior(TickitRenderBuffer *rb, int tl, int tc, int gl, int gc, const char *penspec, int maybe_moves,
+                                 int pl, int pc, const char *prior_pen, const char *prior_text)
 {
   TickitMockTerm *mt = tickit_mockterm_new(tl, tc);
   TickitTerm *tt = (TickitTerm *)mt;
@@ -282,6 +291,16 @@ static void rbh_flush_mock(TickitRenderBuffer *rb, int tl, int tc, int gl, int g
       char ch[2] = { 'a' + (l * 7 + c * 3) % 26, 0 };
       tickit_term_print(tt, ch);
     }
+  }
+  if(prior_text) {
+    tickit_term_goto(tt, pl, pc);
+    TickitPen *pp = rbh_pen(prior_pen);
+    if(!pp) pp = tickit_pen_new();
+    tickit_term_setpen(tt, pp);
+    tickit_pen_unref(pp);
+    size_t len; char *b = rbh_text(prior_text, &len, NULL, false);
+    tickit_term_printn(tt, b, len);
+    free(b);
   }
   tickit_term_goto(tt, gl, gc);
   TickitPen *prior = rbh_pen(penspec);
@@ -500,6 +519,7 @@ static void rbh_run_case(void)
     else if(!strcmp(kw, "blit")) tickit_renderbuffer_blit(rb, bufs[1 - cur].rb);
     else if(!strcmp(kw, "fl")) { rbh_tok(); rbh_flush_mock(rb, ARG(0), ARG(1), ARG(2), ARG(3), vh_tok[p + 4], 1); p += 5; }
     else if(!strcmp(kw, "flm")) { rbh_tok(); rbh_flush_mock(rb, ARG(0), ARG(1), ARG(2), ARG(3), vh_tok[p + 4], 0); p += 5; }
+    else if(!strcmp(kw, "flp")) { rbh_tok(); rbh_flush_mock_prior(rb, ARG(0), ARG(1), ARG(2), ARG(3), vh_tok[p + 4], 1, ARG(5), ARG(6), vh_tok[p + 7], vh_tok[p + 8]); p += 9; }
     else if(!strcmp(kw, "flx")) { rbh_tok(); rbh_flush_xterm(rb, ARG(0), ARG(1)); p += 2; }
     else if(!strcmp(kw, "tp")) { rbh_tok(); rbh_term_print(ARG(0), ARG(1), ARG(2), ARG(3), vh_tok[p + 4]); p += 5; }
     else if(!strcmp(kw, "lct")) {
